@@ -240,6 +240,54 @@ def strlit_hints(lits):
     return " ".join(out)
 
 
+INSPECT_RE = re.compile(r"\s*\.inspect_err\(\|_\|\s*\{\s*context\.pop_element\(\);\s*\}\)\?")
+
+
+def rewrite_inspect_err(text):
+    """R-inspect-err: `EXPR.inspect_err(|_| { context.pop_element(); })?` ->
+    `match EXPR { Ok(v_) => v_, Err(err_) => { context.pop_element(); return Err(err_); } }`
+    (same control flow; Verus does not translate closures that capture `&mut context`)."""
+    n = 0
+    while True:
+        src = rsitems.Src(text)
+        mm = None
+        for cand in INSPECT_RE.finditer(text):
+            if src.mask[cand.start() + len(cand.group(0)) - len(cand.group(0).lstrip())]:
+                mm = cand
+                break
+        if mm is None:
+            return text, n
+        # walk back to the start of the expression: after `= ` of a let/assignment or a statement boundary
+        i = mm.start() - 1
+        depth = 0
+        start = 0
+        while i >= 0:
+            if src.mask[i]:
+                c = text[i]
+                if c == "}" and depth == 0:
+                    start = i + 1      # a preceding block statement ends here
+                    break
+                if c in ")]}":
+                    depth += 1
+                elif c in "([{":
+                    if depth == 0:
+                        start = i + 1
+                        break
+                    depth -= 1
+                elif depth == 0 and c == ";":
+                    start = i + 1
+                    break
+                elif depth == 0 and c == "=" and text[i + 1] not in "=>" and text[i - 1] not in "=!<>+-*/":
+                    start = i + 1
+                    break
+            i -= 1
+        expr = text[start:mm.start()]
+        lead = expr[:len(expr) - len(expr.lstrip())]
+        text = (text[:start] + lead + "match " + expr.strip() +
+                " { Ok(v_) => v_, Err(err_) => { context.pop_element(); return Err(err_); } }" + text[mm.end():])
+        n += 1
+
+
 def strip_inner_attrs(text):
     """drop `#[...]` attributes inside a struct/enum body (field/variant attributes)"""
     src = rsitems.Src(text)
@@ -499,7 +547,7 @@ def expand(unit_path, twin=False, repo=None):
     repo = repo or REPO
     w = Woven()
     lines = open(unit_path).read().split("\n")
-    flags = {"f32": False, "fmt": False, "strlit": False}
+    flags = {"f32": False, "fmt": False, "strlit": False, "inspect_err": False}
     FLAGS.clear()
     src_cache = {}
     i = 0
@@ -528,12 +576,18 @@ def expand(unit_path, twin=False, repo=None):
             w.props = d.split()[1:]
             i += 1
         elif d.startswith("prelude"):
+            groups = []
             for name in d.split()[1:]:
                 p = os.path.join(HERE, "prelude", name + ".rs")
                 w.preludes.append(name)
+                ptxt = open(p).read().rstrip("\n")
+                groups += re.findall(r"^// BROADCAST: (\S+)", ptxt, re.M)
                 w.add("// ---- prelude %s ----" % name)
-                w.add(open(p).read().rstrip("\n"))
+                w.add(ptxt)
                 w.add("// ---- end prelude %s ----" % name)
+            if groups:
+                # Verus allows one module-level `broadcast use` per module
+                w.add("broadcast use %s;" % ", ".join(groups))
             i += 1
         elif d.startswith("rewrite "):
             for f in d.split()[1:]:
@@ -570,6 +624,10 @@ def expand(unit_path, twin=False, repo=None):
                     raise WeaveError("%s :: %s: replace[%s] %r matched %d times" % (file, " :: ".join(path), rule, old, cnt))
                 text = text.replace(old_, new_)
                 applied.append({"rule": rule, "old": old, "new": new, "count": cnt})
+            if flags.get("inspect_err") and it.kind == "fn":
+                text, nrw = rewrite_inspect_err(text)
+                if nrw:
+                    applied.append({"rule": "R-inspect-err", "count": nrw})
             if flags["f32"]:
                 text, nrw = rewrite_f32(text)
                 if nrw:
